@@ -188,6 +188,9 @@ var opSym = map[string]string{"add": "+", "sub": "-", "mul": "*", "quo": "/", "r
 	"bor": "|", "bxor": "^", "shl": "<<", "shr": ">>", "eq": "==", "ne": "!=", "seq": "===", "sne": "!==", "lt": "<",
 	"le": "<=", "gt": ">", "ge": ">=", "cmp": "<=>", "land": "&&", "lor": "||", "dot": "."}
 
+var compound = map[string]bool{"add": true, "sub": true, "mul": true, "quo": true, "rem": true, "pow": true, "band": true,
+	"bor": true, "bxor": true, "shl": true, "shr": true, "dot": true}
+
 // literal source text of an operand (only values that have one)
 func lit(v *V) (string, bool) {
 	switch v.K {
@@ -288,6 +291,7 @@ func runStmt(src string) (o Obs) {
 //	avv  $l = L; $r = R; $d = $l OP $r; c03_emit($d);     (VarFastAssign)
 //	avl  $l = L; $d = $l OP R; c03_emit($d);
 //	for  $l = L; $h = false; for (; $l OP R; ) { $h = true; break; } c03_emit($h);   (BoolTest)
+//	cvv / cvl   $l OP= $r; c03_emit($l);  /  $l OP= R;   (compound assignment; operators without one as avv)
 //	not / notvl / ifnot / notq / notand   !($l OP $r), !($l OP R), if (!(..)), !(..) ? :, !(..) && true
 //	     (the truth of the operation is reported, like "for")
 func scriptOps(l, r *V, shape string) []Obs {
@@ -321,6 +325,18 @@ func scriptOps(l, r *V, shape string) []Obs {
 			src = "$l = " + ls + "; $h = false;\nfor (; $l" + o + rs + "; ) { $h = true; break; }\nc03_emit($h);\n"
 		// `!` written directly in front of the parenthesised operation (the unary constructor sees the
 		// binary node): the TRUTH of the operation is reported (the observed negation, inverted)
+		// compound assignment ($l OP= $r / $l OP= R) for the operators that have one; the others are
+		// written $d = $l OP $r
+		case "cvv", "cvl":
+			rhs := "$r"
+			if shape == "cvl" {
+				rhs = rs
+			}
+			if compound[op] {
+				src = "$l = " + ls + "; $r = " + rs + ";\n$l " + opSym[op] + "= " + rhs + ";\nc03_emit($l);\n"
+			} else {
+				src = "$l = " + ls + "; $r = " + rs + ";\n$d = $l" + o + rhs + ";\nc03_emit($d);\n"
+			}
 		case "not":
 			src = "$l = " + ls + "; $r = " + rs + ";\nc03_emit(!($l" + o + "$r));\n"
 		case "notvl":
